@@ -103,7 +103,7 @@ pub fn run_c14(a: &Args) {
         }
         let mut rng = Rng::new(mix(a.seed ^ 0xC14, idx));
         let specs = kinds[(idx % 8) as usize];
-        let bulk = idx % 600 == 599;
+        let bulk = idx % 600 == 596; // a multiple of 4: bulk documents also go through the file variant
         let n = if bulk { 40 } else { rng.range(0, 7) };
         let mut used = std::collections::HashSet::new();
         let names: Vec<String> = (0..n).map(|_| unicode_name(&mut rng, &mut used)).collect();
@@ -116,7 +116,7 @@ pub fn run_c14(a: &Args) {
         if n > 0 {
             let m_edges = if bulk {
                 ctx::count("reach:more-than-1000-edges");
-                rng.range(1001, 1300)
+                if rng.chance(1, 3) { rng.range(3000, 4000) } else { rng.range(1001, 1300) }
             } else {
                 rng.range(0, 9)
             };
@@ -195,6 +195,19 @@ pub fn run_c14(a: &Args) {
             let path = format!("{}/g{}.graphml", tmpdir, (idx / 4) % 2);
             if std::fs::metadata(&path).map(|m| m.len() as usize > text.len()).unwrap_or(false) {
                 ctx::count("reach:shorter-document-saved-over-longer-file");
+            }
+            if text.len() > 65536 && !text.is_ascii() {
+                ctx::count("reach:file-larger-than-64KiB-with-multibyte-characters");
+            }
+            if idx % 8 == 0 {
+                // a save that cannot succeed (no such directory) comes first; the save that
+                // follows on the same thread must still write exactly this document
+                let bad = format!("{}/no-such-dir/x.graphml", tmpdir);
+                match guard("write_graphml_file", || graphml::write_graphml_file(&g, &bad)) {
+                    Ok(Err(_)) => ctx::count("reach:failed-save-before-successful-save"),
+                    Ok(Ok(())) => fail("write_graphml_file", "save-into-missing-directory-reported-ok", json!(bad)),
+                    Err(c) => fail("write_graphml_file", &c.class(), c.json()),
+                }
             }
             match guard("write_graphml_file", || graphml::write_graphml_file(&g, &path)) {
                 Ok(Ok(())) => {
@@ -418,8 +431,9 @@ struct DocGen {
 }
 
 fn gen_document(rng: &mut Rng, hostile: bool) -> String {
-    let names = ["a", "b", "c", "n 1", "é", "x&y", ""];
-    let n = rng.range(0, 5);
+    // names that need escaping come early: every document with two or more nodes has one
+    let names: [&str; 7] = if rng.coin() { ["a", "x&y", "b", "n 1", "é", "c<d>\"e'", ""] } else { ["x&y", "b", "c<d>\"e'", "a", "n 1", "é", ""] };
+    let n = rng.range(0, 6);
     let mut t = String::new();
     if rng.chance(1, 3) {
         t.push_str("<?xml version=\"1.0\" encoding=\"UTF-8\"?>\n");
@@ -512,7 +526,11 @@ fn gen_document(rng: &mut Rng, hostile: bool) -> String {
                 w
             };
             let other = *rng.pick(&["x", "7", "2.5", "1e3", "-4"]);
-            match rng.below(if hostile { 10 } else { 5 }) {
+            match rng.below(if hostile { 12 } else { 5 }) {
+                // a self-closing element (it has no content to interpret) ahead of the edge's own,
+                // well-placed weight data
+                10 => t.push_str(&format!("<edge source=\"{}\" target=\"{}\"><node id=\"{}\"/><data key=\"{}\">{}</data></edge>", esc(u), esc(v), esc(u), wkey, w)),
+                11 => t.push_str(&format!("<edge source=\"{}\" target=\"{}\"><key id=\"zz\" for=\"node\" attr.name=\"colour\"/><desc/><data key=\"{}\">{}</data></edge>", esc(u), esc(v), wkey, w)),
                 0 => t.push_str(&format!("<edge source=\"{}\" target=\"{}\"/>", esc(u), esc(v))),
                 4 => t.push_str(&format!("<edge source=\"{}\" target=\"{}\"><data key=\"other\">{}</data></edge>", esc(u), esc(v), other)),
                 1 | 2 => t.push_str(&format!("<edge source=\"{}\" target=\"{}\"><data key=\"{}\">{}</data></edge>", esc(u), esc(v), wkey, w)),
